@@ -5,6 +5,7 @@ import (
 
 	gots "github.com/Comcast/gots/v2"
 	"github.com/Comcast/gots/v2/packet"
+	"github.com/Comcast/gots/v2/pes"
 
 	"gotsverif/engine"
 	"gotsverif/ref"
@@ -127,12 +128,12 @@ func c02Fill(kind int, n int) []byte {
 
 // logical well-formed packet
 type c02Pkt struct {
-	h     ref.Header
-	af    *ref.AF // nil: no adaptation field
-	afLen int     // -1: none
-	pay   []byte  // nil for AF-only
-	hb      []byte // cached header bytes (for h)
-	content []byte // cached flags byte + optional fields of af (reference serialisation)
+	h       ref.Header
+	af      *ref.AF // nil: no adaptation field
+	afLen   int     // -1: none
+	pay     []byte  // nil for AF-only
+	hb      []byte  // cached header bytes (for h)
+	content []byte  // cached flags byte + optional fields of af (reference serialisation)
 }
 
 func (k *c02Pkt) cache() {
@@ -398,6 +399,15 @@ type c02CreateCase struct {
 	PIDs int    `json:"pid_block"` // block of 512 PIDs
 }
 
+// c02PESValues: 33-bit boundary values for WithPES.
+var c02PESValues = func() []uint64 {
+	out := []uint64{0, 1, 90000, 1<<33 - 1, 1 << 32, 1<<32 - 1, 0x155555555, 0x0AAAAAAAA, 0x1FFFF8000, 0x000007FFF}
+	for k := 0; k < 33; k++ {
+		out = append(out, 1<<uint(k))
+	}
+	return out
+}()
+
 func c02CheckCreate(c c02CreateCase) engine.Result {
 	var res engine.Result
 	basic := func(ctx string, p *packet.Packet, pid int, cc int, wantPay bool) {
@@ -451,6 +461,56 @@ func c02CheckCreate(c c02CreateCase) engine.Result {
 						h := ref.ParseHeader(p[:4])
 						if h.PUSI != (mask&2 != 0) || (h.AFC&2 == 2) != (mask&4 != 0) {
 							res.Failf("Create|flags", "mask %d: pusi %v afc %d", mask, h.PUSI, h.AFC)
+						}
+					}
+				}
+				// the adaptation-field flag options (they act on the flag byte that follows the length byte)
+				for mask := 0; mask < 16; mask++ {
+					var o []func(*packet.Packet)
+					if mask&8 != 0 {
+						o = append(o, packet.WithHasAdaptationFieldFlag)
+					}
+					if mask&1 != 0 {
+						o = append(o, packet.WithDiscontinuousAF)
+					}
+					if mask&2 != 0 {
+						o = append(o, packet.WithAFPrivateDataFlag)
+					}
+					if mask&4 != 0 {
+						o = append(o, packet.WithContinuousAF)
+					}
+					p := packet.Create(pid, o...)
+					basic("Create-af-flag-options", p, pid, 0, false)
+					h := ref.ParseHeader(p[:4])
+					if (h.AFC&2 == 2) != (mask&8 != 0) || h.PUSI || h.TEI || h.Prio || h.TSC != 0 {
+						res.Failf("Create|af-flag-options|header", "mask %d: header % x", mask, p[:4])
+					}
+					if disc := p[5]&0x80 != 0; disc != (mask&1 != 0) {
+						res.Failf("Create|af-flag-options|discontinuity", "mask %d: discontinuity bit %v", mask, disc)
+					}
+					if priv := p[5]&0x02 != 0; priv != (mask&6 != 0) {
+						res.Failf("Create|af-flag-options|private-data-flag", "mask %d: private data flag %v", mask, priv)
+					}
+				}
+				// WithPES: a payload that starts with a PES header carrying the requested PTS
+				if pid%8 == 0 {
+					for _, pts := range c02PESValues {
+						p := packet.Create(pid, packet.WithPUSI)
+						packet.WithPES(p, pts)
+						basic("WithPES", p, pid, 0, true)
+						res.Evals++
+						hb, err := packet.PESHeader(p)
+						if err != nil {
+							res.Failf("WithPES|PESHeader-error", "pts %#x: %v", pts, err)
+							continue
+						}
+						ph, err := pes.NewPESHeader(hb)
+						if err != nil || ph == nil {
+							res.Failf("WithPES|NewPESHeader-error", "pts %#x: %v", pts, err)
+							continue
+						}
+						if !ph.HasPTS() || ph.PTS() != pts || ph.HasDTS() || ph.StreamId() != 184 || ph.PacketStartCodePrefix() != 1 {
+							res.Failf("WithPES|pts", "requested pts %#x: header reports HasPTS %v PTS %#x HasDTS %v stream id %d", pts, ph.HasPTS(), ph.PTS(), ph.HasDTS(), ph.StreamId())
 						}
 					}
 				}
